@@ -12,7 +12,7 @@
 #include "exec.h"
 
 /* ---- merge / dupsort callbacks ---- */
-struct mstate { int mode; uint8_t *failkey; size_t lfk; long calls; };   /* mode 0 = token-multiset union, 1 = additionally fail whenever called for key failkey */
+struct mstate { int mode; uint8_t *failkey; size_t lfk; long calls; };   /* mode 0 = token-multiset union, 1 = additionally fail whenever called for key failkey, 2 = longest common prefix */
 
 static int tokcmp(const void *a, const void *b) { return memcmp(a, b, 2); }
 /* values are sequences of 2-byte tokens; merge = sorted multiset union (order-free, so any fold order gives the same bytes) */
@@ -23,6 +23,11 @@ void vf_merge_union(void *clos, const uint8_t *key, size_t lk, const uint8_t *v0
 	if (st) {
 		st->calls++;
 		if (st->mode == 1 && lk == st->lfk && memcmp(key, st->failkey, lk) == 0) { *out = NULL; *lout = 0; return; }
+	}
+	if (st && st->mode == 2) {
+		/* longest common prefix: commutative and associative, and the result is never longer than either operand */
+		size_t l = 0; while (l < l0 && l < l1 && v0[l] == v1[l]) l++;
+		uint8_t *b = malloc(l + 1); memcpy(b, v0, l); *out = b; *lout = l; return;
 	}
 	size_t n = l0 + l1;
 	uint8_t *b = malloc(n + 2);
@@ -139,6 +144,7 @@ int ops_merger(char **args, int na)
 		a->mo = mtbl_merger_options_init();
 		const char *mg = kv(args + 2, na - 2, "merge");
 		if (mg && !strcmp(mg, "union")) { a->st.mode = 0; mtbl_merger_options_set_merge_func(a->mo, vf_merge_union, &a->st); }
+		else if (mg && !strcmp(mg, "lcp")) { a->st.mode = 2; mtbl_merger_options_set_merge_func(a->mo, vf_merge_union, &a->st); }
 		else if (mg && !strncmp(mg, "fail:", 5)) { a->st.mode = 1; if (unhex(mg + 5, &a->st.failkey, &a->st.lfk)) return -1; mtbl_merger_options_set_merge_func(a->mo, vf_merge_union, &a->st); }
 		if (kvnum(args + 2, na - 2, "dupsort", 0)) mtbl_merger_options_set_dupsort_func(a->mo, vf_dupsort, NULL);
 		o->p = mtbl_merger_init(a->mo);
